@@ -153,6 +153,8 @@ class Index(object):
             trees = dict((m.name, m.tree) for m in self.modules.values())
             from .normalize import deproperty
             from .canon import load_ref as _lr
+            from .normalize import renest_callback_methods
+            self.renested = renest_callback_methods(trees, _lr())
             self.depropertied = deproperty(trees, _lr())
             from .normalize import destatic
             self.destaticed = destatic(trees, _lr())
